@@ -23,6 +23,7 @@ type vpNEntry struct {
 	key string
 	val []byte
 	rev uint64
+	del bool // a delete marker (nats.go: Operation() == KeyValueDelete, empty value)
 }
 
 func (e *vpNEntry) Bucket() string             { return "b" }
@@ -31,7 +32,12 @@ func (e *vpNEntry) Value() []byte              { return e.val }
 func (e *vpNEntry) Revision() uint64           { return e.rev }
 func (e *vpNEntry) Created() time.Time         { return time.Time{} }
 func (e *vpNEntry) Delta() uint64              { return 0 }
-func (e *vpNEntry) Operation() nats.KeyValueOp { return nats.KeyValuePut }
+func (e *vpNEntry) Operation() nats.KeyValueOp {
+	if e.del {
+		return nats.KeyValueDelete
+	}
+	return nats.KeyValuePut
+}
 
 type vpNWatcher struct {
 	ch          chan nats.KeyValueEntry
@@ -198,12 +204,16 @@ func vpC14Watch(maxN int) {
 	n := 1 + vpChoose("emitted", maxN)
 	var sent []uint64 // 0 = nil marker
 	for i := 0; i < n; i++ {
-		if vpChoose("kind", 2) == 0 {
+		switch vpChoose("kind", 3) {
+		case 0:
 			uw.ch <- &vpNEntry{key: "g", rev: uint64(i + 1)}
 			sent = append(sent, uint64(i+1))
-		} else {
+		case 1:
 			uw.ch <- nil
 			sent = append(sent, 0)
+		default: // a deletion: delivered as an entry with an empty value and the marker's revision
+			uw.ch <- &vpNEntry{key: "g", rev: uint64(i + 1), del: true}
+			sent = append(sent, uint64(i+1))
 		}
 	}
 	closes := vpChoose("closes", 2) == 1
@@ -211,6 +221,7 @@ func vpC14Watch(maxN int) {
 		close(uw.ch)
 	}
 	var got []uint64
+	var kept []Entry // the consumer keeps what it received: a delivered entry must not change afterwards
 	var first <-chan Entry
 	stable := true
 	closedSeen := false
@@ -227,8 +238,11 @@ func vpC14Watch(maxN int) {
 				closedSeen = true
 			} else if e == nil {
 				got = append(got, 0)
+				kept = append(kept, nil)
 			} else {
 				got = append(got, e.Revision())
+				kept = append(kept, e)
+				vpAssert("C14.deletion-as-empty-value", len(e.Value()) == 0)
 			}
 		case <-time.After(time.Second):
 		}
@@ -243,6 +257,11 @@ func vpC14Watch(maxN int) {
 	for i := range got {
 		if i < len(sent) {
 			vpAssert("C14.in-order-once", got[i] == sent[i])
+		}
+	}
+	for i, e := range kept {
+		if e != nil {
+			vpAssert("C14.in-order-once:retained", e.Revision() == got[i])
 		}
 	}
 	if closes {
